@@ -35,7 +35,10 @@ Inductive ev :=
 | EHand (c : cmdid)                      (* a non-nil command was handed to the dispatcher *)
 | EStart (w : who) (c : cmdid)           (* command c was invoked, on goroutine w (never the event loop) *)
 | EEnd (w : who) (c : cmdid)             (* it returned *)
-| EExit.
+| EExit
+| EDrop (w : who) (m : msg)              (* a Send gave up because the context was cancelled: the message is dropped *)
+| ECancel                                (* the context was cancelled (Kill, cancellation of the supplied context, ...) *)
+| EFail.                                 (* the loop left through a recovered panic in a callback or an error on p.errs *)
 
 Inductive looppc :=
 | LIdle                                   (* at the select *)
@@ -68,6 +71,7 @@ Section Conc.
     c_seqs : list sthread;                (* sequence goroutines, in spawn order *)
     c_ctx : bool;                         (* context cancelled *)
     c_disp : bool;                        (* dispatcher still alive (it exits once the context is cancelled) *)
+    c_ifw : option cmdid;                 (* the Init forwarder goroutine, blocked handing Init's command to the dispatcher *)
     c_log : list ev;                      (* ghost: everything that happened, oldest first *)
     c_upds : list (M * msg * M)           (* ghost: (model passed, message, model returned) per Update *)
   }.
@@ -83,7 +87,11 @@ Section Conc.
   | LbGrpFinish (k : nat) (j : nat)   (* errgroup member j of sequence k: cmd() returns *)
   | LbCancel                    (* Kill / context cancellation *)
   | LbDispExit                  (* the dispatcher notices the cancellation *)
-  | LbLoopExit.                 (* the loop notices the cancellation (select, or while blocked handing over a command) *)
+  | LbLoopExit                  (* the loop notices the cancellation (select, or while blocked handing over a command) *)
+  | LbGiveUp (w : who)          (* w, blocked in Send, notices the cancellation: Send returns, the message is dropped *)
+  | LbHandInit                  (* rendezvous on the command channel: Init forwarder -> dispatcher *)
+  | LbIfwGiveUp                 (* the Init forwarder notices the cancellation *)
+  | LbLoopFail.                 (* a callback of the loop panics (recovered by Run) or an error arrives on p.errs: the loop is left *)
 
   Fixpoint set_nth {A} (l : list A) (n : nat) (x : A) : list A :=
     match l, n with
@@ -94,13 +102,13 @@ Section Conc.
 
   Definition with_loop (s : cstate) (l : looppc) (e : list ev) : cstate :=
     {| c_model := c_model s; c_loop := l; c_senders := c_senders s; c_cmds := c_cmds s; c_seqs := c_seqs s;
-       c_ctx := c_ctx s; c_disp := c_disp s; c_log := c_log s ++ e; c_upds := c_upds s |}.
+       c_ctx := c_ctx s; c_disp := c_disp s; c_ifw := c_ifw s; c_log := c_log s ++ e; c_upds := c_upds s |}.
   Definition with_cmds (s : cstate) (cs : list cthread) (e : list ev) : cstate :=
     {| c_model := c_model s; c_loop := c_loop s; c_senders := c_senders s; c_cmds := cs; c_seqs := c_seqs s;
-       c_ctx := c_ctx s; c_disp := c_disp s; c_log := c_log s ++ e; c_upds := c_upds s |}.
+       c_ctx := c_ctx s; c_disp := c_disp s; c_ifw := c_ifw s; c_log := c_log s ++ e; c_upds := c_upds s |}.
   Definition with_seqs (s : cstate) (ss : list sthread) (e : list ev) : cstate :=
     {| c_model := c_model s; c_loop := c_loop s; c_senders := c_senders s; c_cmds := c_cmds s; c_seqs := ss;
-       c_ctx := c_ctx s; c_disp := c_disp s; c_log := c_log s ++ e; c_upds := c_upds s |}.
+       c_ctx := c_ctx s; c_disp := c_disp s; c_ifw := c_ifw s; c_log := c_log s ++ e; c_upds := c_upds s |}.
 
   (* the message a thread is blocked sending, if any *)
   Definition offer (s : cstate) (w : who) : option msg :=
@@ -123,7 +131,7 @@ Section Conc.
     | WSender i => match nth_error (c_senders s) i with
                    | Some (_ :: rest) =>
                      {| c_model := c_model s; c_loop := c_loop s; c_senders := set_nth (c_senders s) i rest; c_cmds := c_cmds s; c_seqs := c_seqs s;
-                        c_ctx := c_ctx s; c_disp := c_disp s; c_log := c_log s; c_upds := c_upds s |}
+                        c_ctx := c_ctx s; c_disp := c_disp s; c_ifw := c_ifw s; c_log := c_log s; c_upds := c_upds s |}
                    | _ => s end
     | WCmd j => match nth_error (c_cmds s) j with
                 | Some (CSending c _) => with_cmds s (set_nth (c_cmds s) j (CDone c)) []
@@ -166,7 +174,7 @@ Section Conc.
                   | MSeq cs => with_seqs s (c_seqs s ++ [{| s_rest := cs; s_phase := SNext; s_done := false |}]) []
                   | _ => s end in
         Some {| c_model := m'; c_loop := LCmdSend c; c_senders := c_senders s1; c_cmds := c_cmds s1; c_seqs := c_seqs s1;
-                c_ctx := c_ctx s1; c_disp := c_disp s1; c_log := c_log s1 ++ [EUpdate m c]; c_upds := c_upds s1 ++ [(c_model s, m, m')] |}
+                c_ctx := c_ctx s1; c_disp := c_disp s1; c_ifw := c_ifw s1; c_log := c_log s1 ++ [EUpdate m c]; c_upds := c_upds s1 ++ [(c_model s, m, m')] |}
       | _ => None
       end
     | LbHand =>
@@ -238,10 +246,38 @@ Section Conc.
       end
     | LbCancel => if c_ctx s then None else
       Some {| c_model := c_model s; c_loop := c_loop s; c_senders := c_senders s; c_cmds := c_cmds s; c_seqs := c_seqs s;
-              c_ctx := true; c_disp := c_disp s; c_log := c_log s; c_upds := c_upds s |}
+              c_ctx := true; c_disp := c_disp s; c_ifw := c_ifw s; c_log := c_log s ++ [ECancel]; c_upds := c_upds s |}
     | LbDispExit => if c_ctx s && c_disp s then
       Some {| c_model := c_model s; c_loop := c_loop s; c_senders := c_senders s; c_cmds := c_cmds s; c_seqs := c_seqs s;
-              c_ctx := true; c_disp := false; c_log := c_log s; c_upds := c_upds s |} else None
+              c_ctx := true; c_disp := false; c_ifw := c_ifw s; c_log := c_log s; c_upds := c_upds s |} else None
+    | LbGiveUp w =>
+      if c_ctx s then
+        match offer s w with
+        | Some m => let s1 := took s w in Some (with_loop s1 (c_loop s1) [EDrop w m])
+        | None => None
+        end
+      else None
+    | LbHandInit =>
+      match c_ifw s with
+      | Some c => if c_disp s then
+          Some {| c_model := c_model s; c_loop := c_loop s; c_senders := c_senders s; c_cmds := c_cmds s ++ [CRunning c]; c_seqs := c_seqs s;
+                  c_ctx := c_ctx s; c_disp := c_disp s; c_ifw := None; c_log := c_log s ++ [EHand c; EStart (WCmd (length (c_cmds s))) c]; c_upds := c_upds s |}
+        else None
+      | None => None
+      end
+    | LbIfwGiveUp =>
+      match c_ifw s with
+      | Some _ => if c_ctx s then
+          Some {| c_model := c_model s; c_loop := c_loop s; c_senders := c_senders s; c_cmds := c_cmds s; c_seqs := c_seqs s;
+                  c_ctx := c_ctx s; c_disp := c_disp s; c_ifw := None; c_log := c_log s; c_upds := c_upds s |}
+        else None
+      | None => None
+      end
+    | LbLoopFail =>
+      match c_loop s with
+      | LExited => None
+      | _ => Some (with_loop s LExited [EFail; EExit])
+      end
     | LbLoopExit =>
       if c_ctx s then
         match c_loop s with
@@ -254,12 +290,12 @@ Section Conc.
   Definition run1 (s : cstate) (l : label) : cstate := match step s l with Some s' => s' | None => s end.
   Definition run (s : cstate) (sched : list label) : cstate := fold_left run1 sched s.
 
-  (* Init returned init_cmd; the Init forwarder hands it to the dispatcher like any other command (modelled as
-     the loop starting at the hand-over point), then the first View *)
+  (* Init has returned init_cmd: when it is not nil a forwarder goroutine hands it to the dispatcher (tea.go Run)
+     while the loop goes on to the first View and its select *)
   Definition init_state (m0 : M) (init_cmd : option cmdid) (scripts : list (list msg)) : cstate :=
-    {| c_model := m0; c_loop := LCmdSend init_cmd; c_senders := scripts; c_cmds := []; c_seqs := [];
-       c_ctx := false; c_disp := true; c_log := []; c_upds := [] |}.
+    {| c_model := m0; c_loop := LView; c_senders := scripts; c_cmds := []; c_seqs := [];
+       c_ctx := false; c_disp := true; c_ifw := init_cmd; c_log := []; c_upds := [] |}.
 End Conc.
 
 Arguments c_model {M}. Arguments c_loop {M}. Arguments c_senders {M}. Arguments c_cmds {M}. Arguments c_seqs {M}.
-Arguments c_ctx {M}. Arguments c_disp {M}. Arguments c_log {M}. Arguments c_upds {M}.
+Arguments c_ctx {M}. Arguments c_disp {M}. Arguments c_ifw {M}. Arguments c_log {M}. Arguments c_upds {M}.
